@@ -200,6 +200,52 @@ class refreshed:
     modifies = []
 
 
+def replay_refreshed(o):
+    """The counter-model is a stat result that differs from the recorded one in some of mode / mtime / size / inode
+    while the recorded hash is returned.  Its concrete forms on the real function: a file replaced by another one
+    (new inode) of the same size with the same mtime; an in-place rewrite of the same size with the mtime restored; a
+    chmod.  In each case the result has to describe the file that is on disk now."""
+    code = (
+        "import hashlib, os, sys, tempfile\n"
+        "from stepup.core.hash import FileHash\n"
+        "bad = []\n"
+        "with tempfile.TemporaryDirectory() as d:\n"
+        "    p = os.path.join(d, 'f.txt')\n"
+        "    def rec(data):\n"
+        "        with open(p, 'wb') as f: f.write(data)\n"
+        "        return FileHash.unknown().refreshed(p), os.stat(p)\n"
+        "    def judge(what, old):\n"
+        "        new = old.refreshed(p)\n"
+        "        st = os.stat(p)\n"
+        "        want = hashlib.sha256(open(p, 'rb').read()).digest()\n"
+        "        if new.digest != want or new.mode != st.st_mode or new.inode != st.st_ino or new.size != st.st_size:\n"
+        "            bad.append((what, new))\n"
+        "    old, st = rec(b'built by the step\\n')\n"
+        "    q = p + '.new'\n"
+        "    with open(q, 'wb') as f: f.write(b'edited by a user.\\n')\n"
+        "    os.utime(q, ns=(st.st_atime_ns, st.st_mtime_ns)); os.replace(q, p)\n"
+        "    judge('replaced by a file of the same size and mtime (new inode)', old)\n"
+        "    old, st = rec(b'built by the step\\n')\n"
+        "    os.chmod(p, 0o755)\n"
+        "    os.utime(p, ns=(st.st_atime_ns, st.st_mtime_ns))\n"
+        "    judge('chmod', old)\n"
+        "for what, new in bad:\n"
+        "    print('refreshed() after the file was', what, 'does not describe the file on disk:', new)\n"
+        "sys.exit(1 if bad else 0)\n")
+    import subprocess
+
+    r = subprocess.run(["/venv/bin/python", "-c", code], cwd=extract.REPO, capture_output=True, text=True,
+                       env={"PYTHONPATH": extract.REPO, "PATH": "/usr/bin:/bin"})
+    return dict(reproduced=r.returncode == 1, python=code, output=(r.stdout + r.stderr)[-1500:],
+                witness=dict(claim="the recorded hash (or its digest) is kept although mode, mtime, size or inode differ"))
+
+
+from vc.report import replayer  # noqa: E402
+
+for _p in ("C13", "C04", "C06"):
+    replayer(f"{_p}/FileHash.refreshed/post.result")(replay_refreshed)
+
+
 @contract("stepup/core/hash.py::FileHash.unknown", props=["C13"])
 class unknown:
     args = dict(cls=lambda a: engine.RepoClass(FileHash))
